@@ -6,5 +6,5 @@ Require Import ExtrOcamlBasic.
 From Coq Require Import ZArith NArith.
 From SWH.lib Require Import Sha1.
 From SWH.model Require Import Ident.
-Extraction "extract/C07/model.ml" construct evolve check compute_hash hash_from_attributes swhid to_dict_has_raw
+Extraction "extract/C07/model.ml" construct evolve check compute_hash hash_from_attributes swhid
   swhid_tag has_raw_field all_kinds sha1 Z.of_N N.to_nat.
